@@ -111,7 +111,8 @@ class Run:
             s = a_min if prev_x is None else max(prev_x, a_min)
             x = F(ro.now)
             want = s + F(8 * ri.snap[3]) / rate
-            ok = (x == want) if exact else abs(float(x) - float(want)) <= 1e-9 * max(1.0, abs(float(want)))
+            # float domain: the kernel adds one rounded service time to `now`; a few ulps is all a correct implementation can be off
+            ok = (x == want) if exact else abs(float(x) - float(want)) <= 1e-12 * max(1.0, abs(float(want)))
             if not ok:
                 kind = "idle-with-backlog-or-slow" if x > want else "overlap-or-fast"
                 raise Violation("C12.service_law", f"exit #{k + 1} (packet {ro.snap[0]}, flow {ro.snap[1]}, size {ri.snap[3]}) at "
